@@ -6,6 +6,27 @@ props = [json.loads(l)['id'] for l in open(os.path.join(V, 'properties.jsonl'))]
 TECH = "SMT-based symbolic execution of go/ssa (bounded model checking; z3 decides every obligation)"
 claims = {
 
+ "C06": dict(
+  text="PARTIAL (policy compilation and lookup): symbolic execution of getInfoFromURL/addInPolicyKey/CheckInboundTrafficPolicy for a grid of 216 service URLs (8 schemes x 3 hosts x 9 port spellings) x a symbolic access rule (public/friends bits, <=2 friend addresses, <=2 for-addresses): a packet with symbolic protocol 0..255, destination port 0..65535 and source address is admitted iff the specification table says so (tcp->6, udp->17, http/https->6+17 on explicit or default port, icmp6/ping6->58 port 0; public => anyone, else friends/for); invalid services are refused; no service => deny.",
+  note="URL text is enumerated (net/url is evaluated natively on concrete strings); makePolicyKey summarised as an injective key; the inbound/outbound router paths (handleIncomingTraffic, handleTunPacket: unseal, inner==outer addresses, internal range, isolation) are not yet covered by this check.",
+  tech=TECH),
+ "C15": dict(
+  text="Symbolic execution of EncryptionSession.Out/In/Check, SequenceHandler.NextOut/RolloverRequired/Reset: one Out step from an arbitrary counter state issues a strictly larger (epoch,seq), never 0, rolls the out key and resets the priority counter on a regular wrap, refuses a priority wrap, and increments the counter only while the session lock is held; an in-order sender/receiver step across the wrap keeps window and key in sync and old-epoch frames are offered the new key; every delivery order of W consecutive frames around the wrap with displacement <= D accepts each frame offered its own key exactly once.",
+  note="rolloverKey modelled as key id -> id+100; mutex/atomics sequential (lock discipline asserted from lock events); W=4,D=2 quick / W=6,D=4 thorough; start offsets within 300 of the wrap; true parallelism is outside.",
+  tech=TECH),
+ "C16": dict(
+  text="Symbolic execution of AddLink/RemoveLink/CloseLink/LinkBase.Close/assignSwitchLabel on L real LinkBase objects with symbolic (possibly equal) peer addresses through every sequence of K steps from {assign label, register, close, close-by-peer}: after each step every registered, not-closing link is found by peer and by label, no closing link is found, live labels are unique and non-zero, and the peer-route set equals the set of peers with a live link.",
+  note="L=2,K=4 quick / L=3,K=5 thorough; steps are the lock-protected atomic sections (any interleaving of them); routing table = ghost peer-route set; counterexamples replayed by a native driver with real LinkBase objects over net.Pipe.",
+  tech=TECH),
+ "C18": dict(
+  text="PARTIAL (crash half): symbolic execution of JSONFileStorage.Stop and NewJSONFileStorage against a file-system model in which every write stops after a symbolic number of bytes (and the process may die before a rename): the next start succeeds and loads the complete previous or complete new state, for every crash offset and every token length.",
+  note="JSON codec modelled as opaque tokens (Unmarshal succeeds exactly on a complete token); the round-trip half (every router/mapping field preserved) lives in encoding/json reflection and is NOT claimed; torn sectors / directory fsync outside.",
+  tech=TECH),
+ "C20": dict(
+  text="PARTIAL (module-group bookkeeping only): symbolic execution of mgr.NewGroup/Group.Start/Stop/stopFrom with K modules each present, typed-nil or nil, symbolic start/stop errors and leftover workers: never panics, holds exactly the present modules in order, starts in order, unwinds in reverse on failure, stops in reverse and reports failure iff a Stop erred or workers remained. That a relay-only router actually runs, peers and stops without leaking goroutines is NOT claimed.",
+  note="K=3 quick / 4 thorough; context.WithCancel and WaitForWorkers are models; whole-process behaviour (goroutines, sockets, timers) is outside this technique.",
+  tech=TECH),
+
  "C01": dict(
   text="Symbolic execution of VerifyAddress/VerifyAddressKey/makeAddressDigestData and tryToGenerateAddress: for an arbitrary identity (IPv6/IPv4/invalid address, 15 known + unknown hash names, key-type and key of symbolic length up to 10000, any easing) nil is returned exactly when the address is an fd00::/8 IPv6, all fields present, hash known and the 16 address bytes equal the digest prefix of exactly 01|len(type)|be16(len(key))|type|key|[be64(easing)]; never panics. Every identity the generator returns verifies, lies in a requested prefix, outside ignored/internal ranges, with the easing recorded.",
   note="Hash functions idealised (arbitrary digest bytes, functionally consistent); generator with <=2 acceptable and <=2 ignored symbolic prefixes, maxEasing <=1 quick / 2 thorough; storage reload text parsing (netip.ParseAddr/hex) and the three network entry points are outside this check (entry-point ordering is checked where the router/peering harnesses exist).",
